@@ -6,6 +6,12 @@ def F(scn, threads=2, runs=5, extra=()):
     return dict(name='tsan-%s-t%d%s' % (scn, threads, ''.join('-' + e for e in extra)), harness='h_thread.c', variant='tsan', args=['scn=' + scn, 'mode=free', 'threads=%d' % threads, 'runs=%d' % runs] + list(extra),
                 cflags=WRAP, env={'TSAN_OPTIONS': 'halt_on_error=0 exitcode=0 report_signal_unsafe=0 suppressions=' + SUPP})
 
+def D(kinds, iters=3000, runs=3):
+    """free-running mixed dispatch: worker i works on values of kind kinds[i] (I Int, S String, F Float, P plain struct, U user type with its own Cmp).
+    No suppression file: the reports inside src/Type.c are judged by the harness by the memory they are about (a type object's own lazily filled words, or anything else)"""
+    return dict(name='tsan-dispatch-%s' % kinds, harness='h_thread.c', variant='tsan', args=['scn=dispatch', 'mode=free', 'threads=%d' % len(kinds), 'kinds=' + kinds, 'iters=%d' % iters, 'runs=%d' % runs],
+                cflags=WRAP, env={'TSAN_OPTIONS': 'halt_on_error=0 exitcode=0 report_signal_unsafe=0'})
+
 def S(scn, bound, threads=2, variant='hooks', **kw):
     d = dict(name='%s-t%d-b%d%s' % (scn, threads, bound, '' if variant == 'hooks' else '-' + variant), harness='h_thread.c', variant=variant,
              args=['scn=' + scn, 'bound=%d' % bound, 'threads=%d' % threads], cflags=WRAP)
@@ -62,6 +68,8 @@ CHECK = {
       S('abandon', 2), S('rerun', 1), S('parent+args', 2, args=['scn=parent+args', 'bound=2', 'threads=2', 'heapargs=1'], name='parent+args-heapargs-b2'),
       MIX((2, 1), 2, 'L'), MIX((2, 1), 2, 'T'), MIX((2, 1), 2, 'W'), HIST(7, 1), HIST(7, 1, managed=1),
       F('lockmix', 2, 5, ('prog=LW+T',)), F('lockmix', 2, 5, ('prog=TL+WT',)), F('tlshist', 2, 5, ('prog=n0c0n1c1j0d0n0c0j1j0',)),
+      S('lazy', 2), S('handover', 2), S('dispatch', 1, args=['scn=dispatch', 'bound=1', 'threads=2', 'kinds=IS']),
+      D('IS'), D('ISP'), D('FUI'), D('III'), F('lazy'), F('handover'),
       F('alloc'), F('exc'), F('tls'), F('cont'), F('fmt'), F('mutex-lock'), F('parent+alloc'), F('parent+tls'), F('parent+tls', 2, 8, ('managed=1',)), F('parent+args'),
     ],
     'thorough': [
@@ -82,6 +90,12 @@ CHECK = {
       MIX((2, 1, 1), 2, 'L'), MIX((2, 1, 1), 2, 'T'), MIX((2, 1, 1), 2, 'W'),
       HIST(9, 1), HIST(7, 2), HIST(8, 1, managed=1),
       F('lockmix', 3, 10, ('prog=LW+T+W',)), F('lockmix', 3, 10, ('prog=WT+TL+LW',)), F('tlshist', 2, 10, ('prog=n0c0n1c1j0d0n0c0j1j0',)), F('tlshist', 2, 10, ('prog=n0c0j0c0n1c1j0j1d0n0c0j0',)),
+      S('lazy', 3), S('lazy', 2, threads=3, args=['scn=lazy', 'bound=2', 'threads=3', 'deadline=300']), S('handover', 3), S('handover', 3, args=['scn=handover', 'bound=3', 'threads=2', 'del=0'], name='handover-readonly-b3'),
+      # dispatch: the scheduling points are the cache reads/fills inside every lookup (400-700 per execution); bound 2 with one round per worker did not end within 100 s (26 960 schedules), bound 1 does
+      S('dispatch', 1, args=['scn=dispatch', 'bound=1', 'threads=2', 'kinds=IS', 'iters=3'], name='dispatch-IS-b1'), S('dispatch', 1, args=['scn=dispatch', 'bound=1', 'threads=2', 'kinds=PU', 'iters=3'], name='dispatch-PU-b1'),
+      S('dispatch', 1, args=['scn=dispatch', 'bound=1', 'threads=2', 'kinds=FS', 'iters=3'], name='dispatch-FS-b1'), S('dispatch', 1, args=['scn=dispatch', 'bound=1', 'threads=2', 'kinds=II', 'iters=2'], name='dispatch-II-b1'),
+      S('dispatch', 1, args=['scn=dispatch', 'bound=1', 'threads=3', 'kinds=ISP', 'iters=2', 'deadline=300'], name='dispatch-ISP-b1'),
+      D('IS', 20000, 5), D('ISP', 20000, 5), D('FUI', 20000, 5), D('PSU', 20000, 5), D('ISFPU', 10000, 5), D('III', 20000, 5), D('SSS', 20000, 5), D('PP', 20000, 5), F('lazy', 3, 10), F('handover', 2, 10),
       F('alloc', 3, 10), F('fmt', 3, 10), F('exc', 3, 10), F('tls', 3, 10), F('cont', 3, 10), F('mutex-lock', 3, 10), F('mutex-with', 3, 10), F('parent+alloc', 2, 10), F('parent+tls', 2, 10), F('parent+cont', 2, 10),
     ],
   },
